@@ -320,6 +320,8 @@ def is_interned(v):
 
 def enc(v, ids, out, top=True):
     """Python constructor argument -> ArgTok s-expressions (appended to out)."""
+    if isinstance(v, np.generic):
+        v = v.item()        # a NumPy scalar hashes and compares like the Python number it holds
     if isinstance(v, bool):
         out.append(["b", v])
     elif isinstance(v, int):
@@ -368,6 +370,8 @@ def enc(v, ids, out, top=True):
 def enc_key_elem(v, ids, out):
     """One element of a *real* intern-table key -> model Tok s-expressions (the harness's reading of the
     real key; compared with the model's key).  An int that is a known address is shown canonically."""
+    if isinstance(v, np.generic):
+        v = v.item()
     if isinstance(v, bool):
         out.append(["n", int(v), 1])
     elif isinstance(v, int):
@@ -518,6 +522,10 @@ RECIPES = [
     Recipe("nz", T + "Number", "(0.0,)"),
     Recipe("nnz", T + "Number", "(-0.0,)"),
     Recipe("nhalf", T + "Number", "(0.5,)"),
+    # NumPy scalars (np.generic) are hashable and == the Python numbers: keyed by value like them
+    Recipe("nhalf_g", T + "Number", "(np.float64(0.5),)"),
+    Recipe("n1_g32", T + "Number", "(np.float32(1.0),)"),
+    Recipe("n1b3_g", T + "Number", "(np.int64(1), 3)"),
     Recipe("n1b3", T + "Number", "(1, 3)"),
     Recipe("n1b3f", T + "Number", "(1.0, 3)"),
     Recipe("nan_s", T + "Number", "(NAN,)"),
@@ -613,6 +621,12 @@ RECIPES = [
     Recipe("pr7", T + "Variable", "('p', H['r7'])", needs=("r7",)),
     Recipe("qr7", T + "Variable", "('q', H['r7'])", needs=("r7",)),
     Recipe("i7", T + "Variable", "('i7', H['bs7'])", needs=("bs7",)),
+    Recipe("r77", D, "(7, 7)", expr="Reals[7, 7]", mcls="Reals", cyc=True, dyn=True, pk=("reflect",), blob=True),
+    Recipe("m77", T + "Variable", "('m', H['r77'])", needs=("r77",)),
+    Recipe("n77", T + "Variable", "('n', H['r77'])", needs=("r77",)),
+    Recipe("ein", "funsor.ops.EinsumOp", "('ab,bc->ac',)", expr="ops.EinsumOp('ab,bc->ac')", mcls="OpMeta",
+           dyn=True, pk=("reflect",), blob=True),
+    Recipe("rs71", "funsor.ops.ReshapeOp", "((7, 1),)", expr="ops.ReshapeOp((7, 1))", mcls="ReshapeMeta", dyn=True),
     # Tensor leaves on VIEWS of one buffer (non-contiguous, negative stride, 0-d, read-only): the key is the
     # identity of the array object passed, so the same view twice is one Tensor, equal-content views are not
     Recipe("tv_VT", TT, "(A[3],)", needs=("VT",), core=True, pk=("reflect", "eager"), ri=("reflect", "lazy")),
@@ -680,26 +694,95 @@ RBY = {r.name: r for r in RECIPES}
 # that a table entry left behind is a leak and not an untracked by-product.
 USE_INTERPS = ("reflect", "lazy", "normalize", "eager")
 USES = {
-    "add": (("pr7", "qr7"), "H['pr7'] + H['qr7']"),
-    "mul": (("pr7", "qr7"), "H['pr7'] * H['qr7']"),
-    "max": (("pr7", "qr7"), "ops.max(H['pr7'], H['qr7'])"),
-    "logaddexp": (("pr7", "qr7"), "ops.logaddexp(H['pr7'], H['qr7'])"),
-    "addself": (("pr7",), "H['pr7'] + H['pr7']"),
-    "sub": (("pr7", "qr7"), "H['pr7'] - H['qr7']"),
-    "lt": (("pr7", "qr7"), "H['pr7'] < H['qr7']"),
-    "exp": (("pr7",), "H['pr7'].exp()"),
-    "neg": (("pr7",), "-H['pr7']"),
-    "sum": (("pr7",), "H['pr7'].sum()"),
-    "getitem": (("pr7", "i7"), "H['pr7'][H['i7']]"),
-    "reduce": (("pr7", "i7"), "H['pr7'][H['i7']].reduce(ops.add, 'i7')"),
-    "reduce_max": (("pr7", "i7"), "H['pr7'][H['i7']].reduce(ops.max, 'i7')"),
-    "subs": (("pr7", "qr7"), "(H['pr7'] + H['qr7'])(p=H['qr7'])"),
-    "contraction": (("pr7", "qr7"), "Contraction(ops.null, ops.mul, frozenset(), H['pr7'], H['qr7'])"),
-    "tensor_add": (("r7",), "Tensor(np.ones(7)) + Tensor(np.ones(7))"),
-    "tensor_var": (("pr7",), "Tensor(np.ones(7)) * H['pr7']"),
-    "stack": (("pr7", "qr7"), "Stack('k', (H['pr7'], H['qr7']))"),
-    "min": (("pr7", "qr7"), "ops.min(H['pr7'], H['qr7'])"),
+    # name: (handles needed, expression, op class whose find_domain rule types the term)
+    "add": (("pr7", "qr7"), "H['pr7'] + H['qr7']", "AddOp"),
+    "mul": (("pr7", "qr7"), "H['pr7'] * H['qr7']", "MulOp"),
+    "max": (("pr7", "qr7"), "ops.max(H['pr7'], H['qr7'])", "MaxOp"),
+    "min": (("pr7", "qr7"), "ops.min(H['pr7'], H['qr7'])", "MinOp"),
+    "logaddexp": (("pr7", "qr7"), "ops.logaddexp(H['pr7'], H['qr7'])", "LogaddexpOp"),
+    "addself": (("pr7",), "H['pr7'] + H['pr7']", "AddOp"),
+    "bint_add": (("i7",), "H['i7'] + H['i7']", "AddOp"),
+    "sub": (("pr7", "qr7"), "H['pr7'] - H['qr7']", "SubOp"),
+    "lt": (("pr7", "qr7"), "H['pr7'] < H['qr7']", "LtOp"),
+    "floordiv": (("i7",), "H['i7'] // H['i7']", "FloordivOp"),
+    "mod": (("i7",), "H['i7'] % H['i7']", "ModOp"),
+    "matmul": (("m77", "n77"), "H['m77'] @ H['n77']", "MatmulOp"),
+    "exp": (("pr7",), "H['pr7'].exp()", "ExpOp"),
+    "neg": (("pr7",), "-H['pr7']", "NegOp"),
+    "astype": (("pr7",), "ops.astype(H['pr7'], 'float32')", "AstypeOp"),
+    "sum": (("pr7",), "H['pr7'].sum()", "SumOp"),
+    "sum_axis": (("m77",), "ops.sum(H['m77'], 0)", "SumOp"),
+    "sum_op": (("sum_m1", "m77"), "H['sum_m1'](H['m77'])", "SumOp"),
+    "amax_axis": (("m77",), "ops.amax(H['m77'], -1, True)", "AmaxOp"),
+    "logsumexp": (("m77",), "ops.logsumexp(H['m77'], 1)", "LogsumexpOp"),
+    "argmax": (("pr7",), "ops.argmax(H['pr7'], 0)", "ArgmaxOp"),
+    "unsqueeze": (("pr7",), "ops.unsqueeze(H['pr7'], -1)", "UnsqueezeOp"),
+    "reshape": (("pr7",), "H['pr7'].reshape((7, 1))", "ReshapeOp"),
+    "reshape_op": (("rs71", "pr7"), "H['rs71'](H['pr7'])", "ReshapeOp"),
+    "getslice": (("pr7",), "H['pr7'][1:5]", "GetsliceOp"),
+    "getslice_op": (("gs_rev", "pr7"), "H['gs_rev'](H['pr7'])", "GetsliceOp"),
+    "transpose": (("m77",), "ops.transpose(H['m77'], 0, 1)", "TransposeOp"),
+    "permute": (("m77",), "ops.permute(H['m77'], (1, 0))", "PermuteOp"),
+    "getitem": (("pr7", "i7"), "H['pr7'][H['i7']]", "GetitemOp"),
+    "getitem_off": (("gm1", "m77", "i7"), "H['gm1'](H['m77'], H['i7'])", "GetitemOp"),
+    "getitem_off2": (("m77", "i7"), "ops.GetitemOp(1)(H['m77'], H['i7'])", "GetitemOp"),
+    "reduce": (("pr7", "i7"), "H['pr7'][H['i7']].reduce(ops.add, 'i7')", "AddOp"),
+    "reduce_max": (("pr7", "i7"), "H['pr7'][H['i7']].reduce(ops.max, 'i7')", "MaxOp"),
+    "subs": (("pr7", "qr7"), "(H['pr7'] + H['qr7'])(p=H['qr7'])", "AddOp"),
+    "contraction": (("pr7", "qr7"), "Contraction(ops.null, ops.mul, frozenset(), H['pr7'], H['qr7'])", "MulOp"),
+    "tensor_add": (("r7",), "Tensor(np.ones(7)) + Tensor(np.ones(7))", "AddOp"),
+    "tensor_var": (("pr7",), "Tensor(np.ones(7)) * H['pr7']", "MulOp"),
+    "stack_term": (("pr7", "qr7"), "Stack('k', (H['pr7'], H['qr7']))", None),
+    # Finitary ops
+    "einsum": (("m77", "n77"), "Einsum('ab,bc->ac', H['m77'], H['n77'])", "EinsumOp"),
+    "einsum_op": (("ein", "m77", "n77"), "H['ein']((H['m77'], H['n77']))", "EinsumOp"),
+    "stack": (("pr7", "qr7"), "ops.stack((H['pr7'], H['qr7']))", "StackOp"),
+    "stack_op": (("stk_m1", "pr7", "qr7"), "H['stk_m1']((H['pr7'], H['qr7']))", "StackOp"),
+    "cat": (("pr7", "qr7"), "ops.cat((H['pr7'], H['qr7']))", "CatOp"),
+    "cat_m1": (("pr7", "qr7"), "ops.cat((H['pr7'], H['qr7']), -1)", "CatOp"),
 }
+# op tables observed although no recipe constructs them: the parametrised op instances `use` steps create
+USE_TABLES = ["funsor.ops." + c for c in ("EinsumOp", "CatOp", "TransposeOp", "PermuteOp", "AstypeOp", "LogsumexpOp",
+                                          "MatmulOp", "AmaxOp", "ArgmaxOp", "UnsqueezeOp", "StackOp", "SumOp",
+                                          "ReshapeOp", "GetsliceOp", "GetitemOp", "FloordivOp", "ModOp")]
+# memoising decorators / tables of the pinned tree that Props/C07 `reviewedMemos` reviews: (kind, module, name)
+REVIEWED_MEMOS = {("decorator", "funsor.distribution", "Distribution._infer_param_domain"),
+                  ("decorator", "funsor.distribution", "Distribution._infer_value_domain"),
+                  ("decorator", "funsor.typing", "deep_issubclass"),
+                  ("table", "funsor.domains", "ArrayType._type_cache"),
+                  ("table", "funsor.domains", "ProductDomain._type_cache"),
+                  ("table", "funsor.interpretations", "Memoize.__init__.cache"),
+                  ("table", "funsor.ops.op", "OpMeta.__init__.cls._instance_cache"),
+                  ("table", "funsor.terms", "FunsorMeta.__init__.cls._cons_cache"),
+                  ("table", "funsor.typing", "GenericTypeMeta.__init__.cls._type_cache")}
+
+
+def uses_for_new_memos():
+    """When the reviewed-memo obligation breaks: the `use` steps that run through each NEW memoised function.
+    A memo on a `find_domain` rule is matched through the live dispatch registry: the op classes that dispatch
+    to a function of that name -> the uses whose term is typed by such an op.  Returns (new memos, [use names])."""
+    new = [m for m in memo_scan() if (m[0], m[1], m[2]) not in REVIEWED_MEMOS]
+    hit = []
+    try:
+        from funsor.domains import find_domain
+        reg = dict(find_domain.registry)
+    except Exception:
+        reg = {}
+    for kind, mod, name, src in new:
+        fname = name.rpartition(".")[2]
+        classes = [c for c, fn in reg.items() if getattr(fn, "__name__", None) == fname and isinstance(c, type)]
+        for u, spec in USES.items():
+            oc = getattr(ops, spec[2], None) if spec[2] else None
+            if oc is not None and any(issubclass(oc, c) for c in classes) and u not in hit:
+                # the most specific rule wins in singledispatch: keep the use only if this function is the one chosen
+                try:
+                    if getattr(find_domain.dispatch(oc), "__name__", None) == fname:
+                        hit.append(u)
+                except Exception:
+                    hit.append(u)
+    return new, hit
+
+
 ARR_SLOTS = {"A0": 0, "A1": 1, "B": 2, "VT": 3, "VM": 4, "VC": 5, "VS": 6, "VR": 7, "VZ": 8, "VO": 9}
 # array group k -> the slots (re-)allocated together: 0, 1 = the two plain buffers; 2 = a third buffer B with
 # its VIEWS (distinct ndarray objects sharing B's memory): transpose, moveaxis (same content as the transpose,
@@ -773,7 +856,7 @@ class World:
         self.pinned = []           # [(slot, table name, mcls, args tuple, obj)]
         self.tables = {}           # table name -> dict object
         import importlib
-        for name in sorted({r.cls for r in RECIPES} | {T + "Funsor"}):
+        for name in sorted({r.cls for r in RECIPES} | {T + "Funsor"} | set(USE_TABLES)):
             mod, _, cn = name.rpartition(".")
             c = getattr(importlib.import_module(mod), cn)
             if isinstance(c, OpMeta):
@@ -787,6 +870,8 @@ class World:
                     "Array": Array, "Product": Product, "OrderedDict": OrderedDict, "NAN": NAN}
         from funsor.cnf import Contraction
         self.env["Contraction"] = Contraction
+        from funsor.tensor import Einsum
+        self.env["Einsum"] = Einsum
         self.env["np"] = np
         for c in (Variable, Number, Tensor, Unary, Binary, Subs, Align, Stack, Tuple, Reduce, Lambda, Slice):
             self.env[c.__name__] = c
@@ -1053,13 +1138,13 @@ def callform_histories(rng):
     return out
 
 
-def passed_through_histories(rng):
+def passed_through_histories(rng, first=()):
     """Fresh dynamic domains / variables are created, passed through one typing path under one interpretation,
     then everything is dropped and the collector runs: the weak table entries must be gone (the model compares
     the domain table after every step).  One history per (use, interpretation); a second round re-creates and
     re-drops the domain, sometimes with an unrelated construction in between."""
     out = []
-    for u, (needs, _) in USES.items():
+    for u, (needs, _, _) in USES.items():
         chain = []
         for n in needs:
             _needs_chain(n, chain)
@@ -1072,8 +1157,10 @@ def passed_through_histories(rng):
                 rng.shuffle(drops)
             h += drops + [("gc",)]
             h += [("mk", chain[0], None), ("drop", chain[0]), ("gc",)]
-            out.append(h)
-    return out
+            out.append((u, h))
+    # uses named in `first` (derived from a new memo) lead
+    out.sort(key=lambda uh: 0 if uh[0] in first else 1)
+    return [h for _, h in out]
 
 
 def fill_interps(hist, rng):
@@ -1501,7 +1588,7 @@ def oracle_violation(w, expect_same):
     return None
 
 
-ALIASES = [("n1", "n1f"), ("n1", "n1t"), ("n1", "n1n"), ("nz", "nnz"), ("n1b3", "n1b3f"), ("t0", "t0t"),
+ALIASES = [("nhalf", "nhalf_g"), ("n1", "n1_g32"), ("n1b3", "n1b3_g"), ("n1", "n1f"), ("n1", "n1t"), ("n1", "n1n"), ("nz", "nnz"), ("n1b3", "n1b3f"), ("t0", "t0t"),
            ("t0n", "t0nn"), ("sl", "sl2"), ("sl", "sl3"), ("d5", "d5a"), ("r5", "r5a"),
            ("g1", "g1k"), ("tv_VT", "tv_VTt"), ("tv_VT", "tv_VTn"), ("tv_VS", "tv_VSt"),
            ("tv_VCi", "tv_VCt"), ("tv_VR", "tv_VRt"), ("tv_VZ", "tv_VZt"), ("tv_VO", "tv_VOt"), ("bs23", "bs23a"), ("gs_rev", "gs_revk"), ("gs_s3", "gs_s3n"), ("gs_i2", "gs_i2t"), ("sum_m1", "sum_m1k"), ("sum_m2", "sum_m2k"), ("sum_1", "sum_1f"), ("sum_1", "sum_1t"),
@@ -1671,6 +1758,7 @@ def python_snippet(hist, note):
              "from funsor.domains import Array, Bint, Product, Real, Reals",
              "from funsor.interpretations import eager, lazy, normalize, reflect",
              "from funsor.cnf import Contraction",
+             "from funsor.tensor import Einsum",
              "from funsor.interpreter import reinterpret",
              "from funsor.tensor import Tensor",
              "from funsor.terms import Align, Binary, Lambda, Number, Reduce, Slice, Stack, Subs, Tuple, Unary, Variable",
@@ -2013,7 +2101,11 @@ def search(ctx, broken):
         w = World(rows)
         warm_up_and_pin(w, ctx.rng)
         core = [r for r in RECIPES if r.core]
-        hs = [fill_interps(h, ctx.rng) for h in passed_through_histories(ctx.rng)]
+        new_memos, first = uses_for_new_memos()
+        if new_memos:
+            ctx.extra["new_memos"] = [list(m) for m in new_memos]
+            ctx.extra["uses_through_new_memos"] = first
+        hs = [fill_interps(h, ctx.rng) for h in passed_through_histories(ctx.rng, first)]
         hs += [fill_interps(h, ctx.rng) for _ in range(3) for h in callform_histories(ctx.rng)]
         hs += [fill_interps(h, ctx.rng) for h in enumerate_histories(3, core)]
         hs += [fill_interps(random_history(ctx.rng, ctx.rng.randint(4, 30), RECIPES), ctx.rng)
